@@ -56,8 +56,26 @@ for pdir in sorted(glob.glob(os.path.join(src, "C*"))):
       return ", ".join("%s %s" % (k[6:], e[k].split()[0]) for k in ks) or "-"
     rows.append((pid, n, (info.get("needs") or "")[:110].replace("|", "/"), e1.get("demo_clean_exit"),
                  e1.get("demo_patched_exit"), "%s/%s" % (t.get("passed"), t.get("pinned")), verdict(e1), verdict(e2)))
-out = ["# Seeded changes written by independent sub-agents (property text only)", "",
-       "Ids ending in 'b' are the second wave (agents were told which patterns the first wave had used).",
+def _det(v):
+  return "DETECTED" in v or "VIOLATION" in v
+waves = {}
+for pid, n, needs, c0, c1, tt, v1, v2 in rows:
+  w = {"b": 2, "c": 3, "d": 4}.get(pid[3:4], 1)
+  d = waves.setdefault(w, dict(total=0, first=0, later=0, missed=[]))
+  d["total"] += 1
+  if _det(v1):
+    d["first"] += 1
+  elif _det(v2):
+    d["later"] += 1
+  else:
+    d["missed"].append("%s-%d" % (pid, n))
+summary = ["| wave | changes | detected at first evaluation | detected after strengthening | not detected |", "|---|---|---|---|---|"]
+for w in sorted(waves):
+  d = waves[w]
+  summary.append("| %d | %d | %d | %d | %s |" % (w, d["total"], d["first"], d["later"], ", ".join(d["missed"]) or "0"))
+out = ["# Seeded changes written by independent sub-agents (property text only)", ""] + summary + ["",
+       "Ids ending in 'b', 'c', 'd' are the second, third and fourth wave (each wave was told which patterns",
+       "the earlier waves had used and asked for something different).",
        "Each row was confirmed in a scratch copy of /repo: demo exits 0 without and non-zero with the patch,",
        "and the 281 pinned tests still pass with it. To re-run: git -C /repo apply seeded/<id>/patch.diff;",
        "./check <property> --tier quick; git -C /repo checkout -- .", "",
